@@ -677,7 +677,16 @@ int main(int argc, char** argv) {
                         if (ok && h.getNumActive() != g.getNumActive()) { ok = false; why = "nactive"; }
                         if (ok && h.getActiveMap() != g.getActiveMap()) { ok = false; why = "active map"; }
                         if (ok && g.getMapAxes().has_value() != h.getMapAxes().has_value()) { ok = false; why = "MAPAXES presence"; }
-                        if (ok && g.getMapAxes().has_value() && !(*g.getMapAxes() == *h.getMapAxes())) { ok = false; why = "MAPAXES/MAPUNITS"; }
+                        if (ok && g.getMapAxes().has_value()) {
+                            // unformatted: bit-exact.  Formatted files carry REAL as %16.8E: 8 significant digits do not
+                            // separate all neighbouring floats (decimal mantissa in [0.1, 0.119)), a limitation of the
+                            // published format itself, so MAPAXES is compared to one float ulp there.
+                            const auto& a = g.getMapAxes()->input(); const auto& c = h.getMapAxes()->input();
+                            if (g.getMapAxes()->mapunits() != h.getMapAxes()->mapunits()) { ok = false; why = "MAPUNITS"; }
+                            else if (a.size() != c.size()) { ok = false; why = "MAPAXES size"; }
+                            else for (size_t n = 0; n < a.size() && ok; ++n)
+                                if (formatted ? !close(a[n], c[n], 1.2e-7) : a[n] != c[n]) { ok = false; why = "MAPAXES[" + std::to_string(n) + "] " + num(a[n]) + " vs " + num(c[n]); }
+                        }
                         if (ok) {
                             EclIO::EclFile ef(p1);
                             const auto& gu = ef.get<std::string>("GRIDUNIT");
